@@ -36,16 +36,21 @@ def evaluate(case):
 def evaluate_redirect(case):
     m = importlib.import_module("ural")
     u = c15.build(case)
-    r1 = core.guarded(m.normalize_url, u)
     t = core.guarded(m.infer_redirection, u)
-    if r1[0] != "ok" or t[0] != "ok":
+    if t[0] != "ok":
         return [], ["ood.raises"], None
-    r2 = core.guarded(m.normalize_url, t[1], infer_redirection=False)
     tags = ["redirects"] if t[1] != u else []
-    if r2[0] != "ok" or r2[1] != r1[1]:
-        return [(PROP + ".redirect", {"normalize_url(u)": r1[1]},
-                 {"infer_redirection(u)": t[1], "normalized without inference": r2[1] if r2[0] == "ok" else list(r2)})], tags, r1[1]
-    return [], tags, r1[1]
+    fails = []
+    for kw in ({}, {"platform_aware": True}):
+        r1 = core.guarded(m.normalize_url, u, **kw)
+        if r1[0] != "ok":
+            continue
+        r2 = core.guarded(m.normalize_url, t[1], infer_redirection=False, **kw)
+        if r2[0] != "ok" or r2[1] != r1[1]:
+            fails.append((PROP + ".redirect", {"normalize_url(u)": r1[1], "opts": kw},
+                          {"infer_redirection(u)": t[1], "normalized without inference": r2[1] if r2[0] == "ok" else list(r2)}))
+            break
+    return fails, tags, t[1]
 
 
 def judge(w):
